@@ -152,7 +152,7 @@ def pext (wd : World) (name : String) (args : List Val) (_ : Env) (w : Unit) : E
 
 def pglob (n : String) : Option Val :=
   match n with
-  | "maxSymlinkDepth" => some (.int 40)
+  | "maxSymlinkDepth" => some (.int Gen.C02.maxSymlinkDepth)
   | "atFDCWD" => some (.int (-100))
   | _ => none
 
@@ -196,5 +196,18 @@ def genAbsPathAt (wd : World) (dirfd : Int) (p : String) : Except String String 
 def modelResolve (wd : World) (base p : String) : Option (String × Bool) :=
   let start : CPath := if isAbs p then [] else toCPath base
   (resolve wd.fs 4000 start (splitSlash p) 40).map (fun r => (ofCPath r.1, r.2))
+
+/-- the same with a link budget `b` in both the regenerated code (its constant replaced) and the hand model -/
+def pglobB (b : Nat) (n : String) : Option Val := if n == "maxSymlinkDepth" then some (.int b) else pglob n
+
+def genResolveB (b : Nat) (wd : World) (base p : String) : Except String String :=
+  match callF ({ ext := pext wd, glob := pglobB b } : Cfg Unit) Gen.C02.resolveTraceePath [.int wd.pid, .str base, .str p] 6000 with
+  | .ok (.str s) => .ok s
+  | .ok _ => .error "shape"
+  | .error e => .error e
+
+def modelResolveB (b : Nat) (wd : World) (base p : String) : Option (String × Bool) :=
+  let start : CPath := if isAbs p then [] else toCPath base
+  (resolve wd.fs 4000 start (splitSlash p) b).map (fun r => (ofCPath r.1, r.2))
 
 end GoSandbox.Model.PathResolve
